@@ -50,6 +50,16 @@ def ref_eval(spec, ctx=None):
         for ch in children:
             vals.append(ref_eval(ch, myctx))   # first failure stops the sequence
         return vals
+    if kind == "seqnest":
+        vals, errs = [], set()
+        for ch in children[:-1]:             # the first item is a list of calls: evaluated together
+            try:
+                vals.append(ref_eval(ch, myctx))
+            except Raised as r:
+                errs |= r.msgs
+        if errs:
+            raise Raised(errs)
+        return [vals, [ref_eval(children[-1], myctx)]]
     if kind == "catch":
         try:
             return ref_eval(children[0], myctx)
